@@ -78,5 +78,5 @@ def tasks(ctx):
     t = []
     for sh in range(NSHARDS):
         t.append((task_enum, dict(shard=sh, L=L)))
-        t.append((task_random, dict(shard=sh, n=ctx.pick(160, 2500), max_ops=ctx.pick(10, 40))))
+        t.append((task_random, dict(shard=sh, n=ctx.pick(600, 2500), max_ops=ctx.pick(10, 40))))
     return t
